@@ -281,7 +281,7 @@ impl Pool {
                       true
                      FROM
                       leases
-                     WHERE expiry >= ?1
+                     WHERE expiry > ?1
                      AND address = ?2",
                 rusqlite::params![ts, requested.to_string()],
                 |_row| Ok(Some(())),
@@ -328,7 +328,7 @@ impl Pool {
                       true
                      FROM
                       leases
-                     WHERE expiry >= ?1
+                     WHERE expiry > ?1
                      AND address = ?2",
                     rusqlite::params![ts, i.to_string()],
                     |_row| Ok(Some(())),
